@@ -1635,6 +1635,13 @@ fn const_eval_intrinsic(
                 };
                 Ok(Some(Constant::unique(lookup.context, c)))
             }
+            (ConstantValue::B256(val1), ConstantValue::B256(val2)) => {
+                let c = ConstantContent {
+                    ty: Type::get_bool(lookup.context),
+                    value: ConstantValue::Bool(val1 > val2),
+                };
+                Ok(Some(Constant::unique(lookup.context, c)))
+            }
             _ => {
                 unreachable!("Type checker allowed non integer value for GreaterThan")
             }
@@ -1651,6 +1658,13 @@ fn const_eval_intrinsic(
                 Ok(Some(Constant::unique(lookup.context, c)))
             }
             (ConstantValue::U256(val1), ConstantValue::U256(val2)) => {
+                let c = ConstantContent {
+                    ty: Type::get_bool(lookup.context),
+                    value: ConstantValue::Bool(val1 < val2),
+                };
+                Ok(Some(Constant::unique(lookup.context, c)))
+            }
+            (ConstantValue::B256(val1), ConstantValue::B256(val2)) => {
                 let c = ConstantContent {
                     ty: Type::get_bool(lookup.context),
                     value: ConstantValue::Bool(val1 < val2),
